@@ -45,6 +45,8 @@ class AuditLog:
             if event == "open":
                 self.seen += 1
                 path, mode, flags = args[0], args[1], args[2]
+                if isinstance(path, int):
+                    return          # os.fdopen()/open(fd): the descriptor's own creation was already reported
                 if isinstance(flags, int) and flags & _WRITE_FLAGS:
                     self.events.append(("open-write", self._abs(path), mode))
             elif event in _MUTATORS:
